@@ -32,7 +32,7 @@ pub static SPEC: Spec = Spec {
     rule: "a case = one history scaled so that block indices cross 8192 / 32768 / 65536 (98304 in thorough): batch appends of 8000-40000 one-byte blocks, clears straddling page edges, reopen after steps, replicas fetching blocks pages apart and out of order, sampled crash recovery (64 journal prefixes per big history); after EVERY step has(i) is probed for EVERY i < length+2 plus 6 offsets in each of the next 4 pages plus 2^32, 2^40-1, u64::MAX and compared with the model (true exactly for stored blocks), and info().contiguous_length must equal the smallest missing index; small histories: the bounded-exhaustive L=4 set and seeded-random histories with the same oracle; distinct = history hash; evaluations = histories + crash points",
     assumptions: &["get() is sampled on big cores (64 indices incl. page edges); has() is exhaustive below length+2"],
     exhaustive_note: "has() probed on all indices below length+2 after every step; small histories exhaustive for L=4",
-    hang_secs: 240,
+    hang_secs: 480,
 };
 
 const DIRECTED: u64 = 10;
